@@ -1,7 +1,7 @@
 """C06 — malformed or hostile input is contained."""
 import re
 from vlib.cfg import Cfg, DefUse, Slice, ref_chain
-from vlib.cond import switch_cond, variant_edge
+from vlib.cond import switch_cond, variant_edge, bool_edges
 from vlib.census import panic_sites, reachable_bodies
 from vlib.facts import AnchorMissing
 from . import handle_common as hc
@@ -32,8 +32,9 @@ def run(cx):
     cx.rule("C06.R1", "no reply capability before a successful parse: every Call::new in handle() is dominated by the Ok edge of the parser, handle() never writes to its writer itself, and the parser is fed the raw message bytes (no lossy re-encoding that would make invalid UTF-8 acceptable)")
     cx.rule("C06.R2", "a handler error closes exactly that connection: Err -> Stream::shutdown -> leave the loop, without panicking")
     cx.rule("C06.R3", "panic-site census of the request path (handle, the listen worker, the pool worker and everything they reach in the library, plus the generated dispatchers): every may-panic construct is a reviewed table entry")
-    cx.rule("C06.R4", "nesting stays bounded: serde_json's recursion limit is never disabled (no disable_recursion_limit call, no unbounded_depth feature)")
-    r1(cx); r2(cx); r3(cx); r4(cx)
+    cx.rule("C06.R4", "nesting stays bounded: serde_json's recursion limit is never disabled (no disable_recursion_limit call, no unbounded_depth feature) and no thread is given a stack smaller than the default the limit was sized for (Builder::stack_size census)")
+    cx.rule("C06.R5", "a truncated message cannot spin the worker: a loop around handle() re-enters it without reading fresh bytes only on the edge that says an upgrade just happened; otherwise every cycle handle() -> handle() passes a blocking read (whose EOF/empty result ends the loop)")
+    r1(cx); r2(cx); r3(cx); r4(cx); r4_stack(cx); r5(cx)
 
 
 def r1(cx):
@@ -148,3 +149,72 @@ def r4(cx):
     cx.check(not feats, "C06.R4", "workspace:unbounded_depth-feature", "Cargo.toml", "feature unbounded_depth requested in %s" % feats, note_ok="not requested by any manifest")
     m = re.search(r'name = "serde_json"\nversion = "([^"]+)"', lock)
     cx.check(bool(m), "C06.R4", "workspace:serde_json-pinned", "Cargo.lock", "serde_json not pinned", note_ok="serde_json %s (default recursion limit 128)" % (m.group(1) if m else "?"))
+
+
+DEFAULT_STACK = 2 * 1024 * 1024
+
+def r4_stack(cx):
+    """serde_json's limit of 128 levels bounds the recursion only if the thread has the stack for 128 levels: no thread of the library is given less than the default 2 MiB"""
+    n = 0; spawns = 0
+    for b in cx.mir.bodies(test=False):
+        if b.promoted is not None: continue
+        spawns += len([t for t in b.calls("=spawn", "=spawn_scoped", "=spawn_unchecked") if "thread" in t.callee.path])
+        for i, t in enumerate(b.calls("=stack_size")):
+            if "thread" not in t.callee.path: continue
+            n += 1; cx.saw(b)
+            a = t.args[1]
+            v = a.cint() if a.is_const else None
+            if v is None:
+                vals = {o.cint() for k, o in Slice(b).origins(a) if k == "const"}
+                v = vals.pop() if len(vals) == 1 else None
+            cx.check(v is not None and v >= DEFAULT_STACK, "C06.R4", "%s:%s:stack_size#%d" % (b.pkg, b.path, i), "%s %s" % (t.sp, b.path),
+                     "thread stack set to %s bytes (default is 2 MiB): recursive deserialisation of a message nested up to serde_json's limit can overflow it, which aborts the whole process instead of failing the one connection" % (v if v is not None else "a non-constant number of"),
+                     note_ok="stack of %s bytes" % v)
+    cx.check(spawns >= 2, "C06.R4", "workspace:thread-stack-default", "-", "expected at least 2 thread spawn sites, saw %d" % spawns, note_ok="%d spawn sites, %d with an explicit stack size" % (spawns, n))
+
+
+def r5(cx):
+    n = 0
+    for body in cx.mir.bodies(test=False):
+        if body.promoted is not None: continue
+        hs = [t for t in body.calls("=handle") if "ConnectionHandler" in (t.callee.path + (t.callee.trait or ""))]
+        if not hs: continue
+        cfg = Cfg(body); du = DefUse(body)
+        reads = {t.bb for t in body.calls("=read", "=fill_buf", "=read_until", "=read_exact", "=poll", "=recv", "=accept") if "RwLock" not in t.callee.path and "Mutex" not in t.callee.path}
+        for i, h in enumerate(hs):
+            if h.target is None or h.bb not in cfg.reach(h.target): continue
+            n += 1; cx.saw(body)
+            # locals holding the interface member of the result
+            from .C02 import tail_places
+            tuples = tail_places(body, du, h)
+            iface = set()
+            for st in body.stmts():
+                if st.kind != "assign" or st.lhs.p: continue
+                for o in st.ops:
+                    p = o.place
+                    if p is None or any(e.startswith("as Err") for e in p.p): continue
+                    f = tuple(p.fields())
+                    for (l, pre) in tuples:
+                        if p.l == l and f[:len(pre) + 1] == pre + ("1",): iface.add(st.lhs.l)
+            up_edges = set()
+            for b in body.blocks:
+                if b.cleanup or b.term.kind != "switch": continue
+                loc = b.term.discr.place.l if b.term.discr.place is not None and not b.term.discr.place.p else None
+                for _ in range(4):
+                    if loc is None: break
+                    ds = du.defs.get(loc, [])
+                    if any(k == "call" and d.callee.name == "is_some" and d.args and d.args[0].place is not None and any(l in iface for l in ref_chain(du, d.args[0].place.l)) for k, d in ds):
+                        for lab, dst in cfg.succ[b.idx]:
+                            if lab != 0: up_edges.add((b.idx, lab, dst))
+                        break
+                    nxt = [d for k, d in ds if k == "stmt" and d.kind == "assign" and d.rv == "use" and d.ops[0].place is not None]
+                    loc = nxt[0].ops[0].place.l if len(nxt) == 1 and len(ds) == 1 else None
+                c = switch_cond(body, du, b.term)
+                if c.kind == "discr" and c.place is not None and c.place.l in iface and not c.place.p:
+                    e = variant_edge(b.term, 1)
+                    if e: up_edges.add(e)
+            back = cfg.reach(h.target, blocked_nodes=reads - {h.bb}, blocked_edges=up_edges)
+            cx.check(h.bb not in back, "C06.R5", "%s:%s:handle#%d:no-spin" % (body.pkg, body.path, i), "%s %s" % (h.sp, body.path),
+                     "handle() can be re-entered without reading from the stream and without an upgrade having happened: for a message that ends at EOF without its NUL, handle() hands the same bytes back every time and the loop never ends (the connection is never closed, the worker never becomes idle)",
+                     note_ok="every cycle back into handle() passes a read or the upgrade edge (%d read blocks, %d upgrade edges)" % (len(reads), len(up_edges)))
+    cx.floor("C06.R5", "handle() call sites inside a loop", n, 3)
